@@ -27,16 +27,18 @@ PROPS = {
              generated_lemmas=["ProtocolInst.protocol_ok"],
              trusted_extra=["tools/build.py extract_protocol: regular expressions over wake_by_ref / push / pop (src/waker_list.rs) and poll_inner_no_remove (src/futures_unordered_bounded.rs) listing their shared-memory steps in textual order; ConcWake.v's transition system is my rendering of those steps (syntactic tie only)"],
              assumptions=["Level B (ConcWake.v): sequential consistency; DiatomicWaker::register / notify and each half of MpscQueue::enqueue are single atomic steps; try_dequeue returns Empty only if the queue is empty or its first node is not linked yet"]),
-    "C02": P([], "C02", "C02", "default,stale,limits,races,budget,groups,reuse,deque", "FUB,FU,FOB,FO", (2000, 50000)),
+    "C02": P([], "C02", "C02", "default,stale,limits,races,budget,groups,reuse,deque,cycles", "FUB,FU,FOB,FO", (2000, 50000)),
     "C03": P(["C03_release_acquire", "C03_side_condition_needed"], "C03", "C03", "drops,stale,races,default,budget,groups,reuse", ALL, (1500, 30000),
-             generated_lemmas=["OrderingsInst.orderings_ok", "Calib.layout_ok"], min_events=2,
+             generated_lemmas=["OrderingsInst.orderings_ok", "Calib.layout_ok", "RefcountInst.refcount_protocol_ok"], min_events=2,
              trusted_extra=["tools/build.py extract_orderings: regular expressions over inc_strong / dec_strong in src/waker_list.rs",
-                            "Orderings.v: my rendering of the C11 release-sequence / fence rules"],
+                            "Orderings.v: my rendering of the C11 release-sequence / fence rules",
+                            "tools/build.py extract_protocol: regular expressions over Drop for WakerList / drop_waker / clone_waker / wake listing the owner's steps (ConcRefcount.v assumes: one decrement, the last owner releases, no other store into the shared header)",
+                            "harness allocator: a released waker block is kept and poisoned; a changed byte is reported as an access to a released block (writes only, not reads)"],
              assumptions=["sequential consistency for everything except the reference count; data-race freedom of the three dependencies is trusted"]),
     "C04": P([], "C04", "C04", "order,deque,default,races,deque,reuse", ORD, (2000, 50000)),
     "C05": P([], "C05", "C05", "stale,default,races,budget,groups,reuse", ALL, (1500, 40000)),
     "C06": P([], "C06", "C06", "drops,default,stale,budget,groups,reuse", ALL, (2000, 50000)),
-    "C07": P([], "C07", "C07", "default,drops,races,limits,budget,groups,reuse", "JA,TJA", (2000, 40000)),
+    "C07": P([], "C07", "C07", "default,drops,races,limits,budget,groups,reuse,zst", "JA,TJA", (2000, 40000)),
     "C08": P([], "C08", "C08", "default,big,drops,budget,groups,reuse", ALL, (1500, 30000)),
     "C09": P([], "C09", "C09", "default,limits,races,sleepy,budget,groups,reuse", ADAPT, (2000, 50000)),
     "C10": P([], "C10", "C10", "default,limits,sleepy,races,budget,groups,reuse", ADAPT, (2000, 50000)),
@@ -44,8 +46,8 @@ PROPS = {
     "C12": P([], "C12", "C12", "stale,races,default,big,budget,groups,reuse", ALL, (1500, 40000)),
     "C13": P([], "C13", "C13", "big,default,stale,races,budget,groups,reuse", ALL, (1200, 30000)),
     "C14": P([], "C14", "C14", "sleepy,default,stale,budget,groups,reuse", ALL, (1500, 40000), known_monitor="K14"),
-    "C15": P([], "C15", "C15", "limits,default,order,budget,groups,reuse,deque", COLL, (2000, 50000)),
+    "C15": P([], "C15", "C15", "limits,default,order,budget,groups,reuse,deque,cycles", COLL, (2000, 50000)),
     "C16": P([], "C16", "C16", "default,limits,sleepy,budget,groups,reuse", "BO,TBO", (2000, 40000)),
     "C17": P([], "C17", "C17", "default,limits,sleepy,drops,budget,groups,reuse", "FUB,FU,MB,MU,FOB,FO,BU,BO,TBU,TBO", (2000, 50000)),
-    "C18": P([], "C18", "C18", "big,default,stale,budget,groups,reuse", ALL, (1200, 20000), min_events=1),
+    "C18": P([], "C18", "C18", "big,default,stale,budget,groups,reuse,cycles", ALL, (1200, 20000), min_events=1),
 }
